@@ -108,6 +108,75 @@ Theorem C05_ppset_total : forall tau, 0 < tau -> forall fuel t a c s, (3 <= fuel
   forall ps, forallb (valid_pproblem tau) ps = true -> exists ps', tr_ppset tau fuel t a c s ps = Ok ps'.
 Proof. exact tr_ppset_total. Qed.
 
+(* an orientation interval is shifted as an angle: both ends by a + k*tau with one k, the length is kept, and the
+   result is again an AngleInterval inside [-tau, tau] (the same clause is part of [movedl], constructor MItv) *)
+Theorem C05_interval_shift : forall tau, 0 < tau -> forall fuel a J J', shift_itv tau fuel a J = Ok J' ->
+  (exists k : Z, lo J' == lo J + a + inject_Z k * tau /\ hi J' == hi J + a + inject_Z k * tau) /\
+  hi J' - lo J' == hi J - lo J /\ - tau <= lo J' /\ hi J' <= tau.
+Proof. exact shift_itv_full. Qed.
+
+(* two motions in a row.  The product of the two matrices is p |-> R(c12,s12)(p + t1) + R(c2,s2) t2 with the
+   angle-addition coefficients (no hypothesis); with c1^2+s1^2 = 1 that is the single motion
+   (t1 + R(-a1) t2, a1 + a2), whose coefficient pair is again a rotation *)
+Theorem C05_composition_closed_form : forall t1 t2 a1 c1 s1 a2 c2 s2 p,
+  pt_eq (move t2 a2 c2 s2 (move t1 a1 c1 s1 p)) (padd (T (c12 c1 s1 c2 s2) (s12 c1 s1 c2 s2) t1 p) (rot c2 s2 t2)).
+Proof. exact compose_closed_form. Qed.
+Theorem C05_composition_is_motion : forall t1 t2 a1 c1 s1 a2 c2 s2 p, c1 * c1 + s1 * s1 == 1 ->
+  pt_eq (move t2 a2 c2 s2 (move t1 a1 c1 s1 p))
+        (T (c12 c1 s1 c2 s2) (s12 c1 s1 c2 s2) (padd t1 (rot c1 (- s1) t2)) p).
+Proof. exact compose_is_motion. Qed.
+Theorem C05_composition_coefficients : forall c1 s1 c2 s2,
+  c12 c1 s1 c2 s2 * c12 c1 s1 c2 s2 + s12 c1 s1 c2 s2 * s12 c1 s1 c2 s2 == (c1 * c1 + s1 * s1) * (c2 * c2 + s2 * s2).
+Proof. exact compose_coefficients. Qed.
+(* every stored value of any object after two motions: points by the composed map, orientations and orientation
+   intervals by a1 + a2 modulo tau inside [-tau, tau], velocity vectors by R(c12, s12), the rest unchanged *)
+Theorem C05_composition : forall tau t1 t2 a1 c1 s1 a2 c2 s2 l l' l'',
+  movedl tau t1 a1 c1 s1 l l' -> movedl tau t2 a2 c2 s2 l' l'' -> Forall2 (moved2 tau t1 t2 a1 c1 s1 a2 c2 s2) l l''.
+Proof. exact movedl_compose. Qed.
+
+(* the result of a motion is a valid object again (orientations inside [-tau, tau], orientation intervals
+   ordered, shorter than tau and inside [-tau, tau]) - without any hypothesis on the input ... *)
+Theorem C05_state_result_valid : forall tau, 0 < tau -> forall fuel t a c s st st',
+  tr_state tau fuel t a c s st = Ok st' -> valid_state tau st' = true.
+Proof. exact tr_state_valid. Qed.
+Theorem C05_scenario_result_valid : forall tau, 0 < tau -> forall fuel t a c s sc sc',
+  tr_scenario tau fuel t a c s sc = Ok sc' -> valid_scenario tau sc' = true.
+Proof. exact tr_scenario_valid. Qed.
+Theorem C05_ppset_result_valid : forall tau, 0 < tau -> forall fuel t a c s ps ps',
+  tr_ppset tau fuel t a c s ps = Ok ps' -> forallb (valid_pproblem tau) ps' = true.
+Proof. exact tr_ppset_valid. Qed.
+(* ... hence a transformed object can be transformed again (e.g. to undo the motion): the second call never raises *)
+Theorem C05_state_chain_total : forall tau, 0 < tau -> forall fuel t1 a1 c1 s1 t2 a2 c2 s2 st st',
+  (3 <= fuel)%nat -> valid_angle tau a2 = true -> tr_state tau fuel t1 a1 c1 s1 st = Ok st' ->
+  exists st'', tr_state tau fuel t2 a2 c2 s2 st' = Ok st''.
+Proof. exact tr_state_chain. Qed.
+Theorem C05_scenario_chain_total : forall tau, 0 < tau -> forall fuel t1 a1 c1 s1 t2 a2 c2 s2 sc sc',
+  (3 <= fuel)%nat -> valid_angle tau a2 = true -> tr_scenario tau fuel t1 a1 c1 s1 sc = Ok sc' ->
+  exists sc'', tr_scenario tau fuel t2 a2 c2 s2 sc' = Ok sc''.
+Proof. exact tr_scenario_chain. Qed.
+Theorem C05_ppset_chain_total : forall tau, 0 < tau -> forall fuel t1 a1 c1 s1 t2 a2 c2 s2 ps ps',
+  (3 <= fuel)%nat -> valid_angle tau a2 = true -> tr_ppset tau fuel t1 a1 c1 s1 ps = Ok ps' ->
+  exists ps'', tr_ppset tau fuel t2 a2 c2 s2 ps' = Ok ps''.
+Proof. exact tr_ppset_chain. Qed.
+
+(* non-vacuity of the chain: a goal state with the orientation interval [6, 25/4] rotated by 6 (the interval
+   wraps: 12 > tau) is an interval inside [-tau, tau] again, and rotating back by -6 restores [6, 25/4] as angles (shifted by -tau) *)
+Example C05_chain_nonvacuous :
+  let tau := 710 # 113 in
+  let st := {| s_time := 0%Z; s_pos := Some (PRegion (Rect 2 1 (1, 1) (1 # 2)));
+               s_ori := Some (OItv {| lo := 6; hi := 25 # 4 |}); s_vec := None; s_rest := [5; 7] |} in
+  exists st' st'', tr_state tau 3 (1, 2) 6 (3 # 5) (4 # 5) st = Ok st' /\
+                   tr_state tau 3 (0, 0) (- 6) (3 # 5) (- (4 # 5)) st' = Ok st'' /\
+                   valid_state tau st' = true /\
+                   match s_ori st', s_ori st'' with
+                   | Some (OItv J'), Some (OItv J'') => hi J' <= tau /\ lo J'' == 6 - tau /\ hi J'' == (25 # 4) - tau
+                   | _, _ => False
+                   end.
+Proof.
+  cbv zeta. eexists. eexists. split; [vm_compute; reflexivity|]. split; [vm_compute; reflexivity|].
+  split; [vm_compute; reflexivity|]. cbn. repeat split; vm_compute; try reflexivity; discriminate.
+Qed.
+
 (* non-vacuity: a scenario with one obstacle of every kind (environment obstacle included), an uncertain
    state and a shape group satisfies the hypotheses; (c, s) = (3/5, 4/5) is a rotation; the result is Ok *)
 Example C05_nonvacuous :
@@ -154,4 +223,16 @@ Print Assumptions C05_shape_total.
 Print Assumptions C05_state_total.
 Print Assumptions C05_scenario_total.
 Print Assumptions C05_ppset_total.
+Print Assumptions C05_interval_shift.
+Print Assumptions C05_composition_closed_form.
+Print Assumptions C05_composition_is_motion.
+Print Assumptions C05_composition_coefficients.
+Print Assumptions C05_composition.
+Print Assumptions C05_state_result_valid.
+Print Assumptions C05_scenario_result_valid.
+Print Assumptions C05_ppset_result_valid.
+Print Assumptions C05_state_chain_total.
+Print Assumptions C05_scenario_chain_total.
+Print Assumptions C05_ppset_chain_total.
+Print Assumptions C05_chain_nonvacuous.
 Print Assumptions C05_nonvacuous.
